@@ -320,8 +320,8 @@ fn explore_trees(p: &Pattern, counters: &Counters, max_trees: u64) -> Result<(u6
     Ok((n, true))
 }
 
-struct SplitTrees {
-    tier: Tier,
+pub struct SplitTrees {
+    pub tier: Tier,
 }
 impl Config for SplitTrees {
     fn label(&self) -> String {
@@ -1137,8 +1137,8 @@ fn pool_checks(threads: usize, ids: &[u16], other: &[u16], hb: u8) -> Result<u64
     Ok(n)
 }
 
-struct Pools {
-    tier: Tier,
+pub struct Pools {
+    pub tier: Tier,
 }
 impl Config for Pools {
     fn label(&self) -> String {
